@@ -45,6 +45,10 @@ type result struct {
 	RespSize     int    `json:"resp_size"`
 	UpSeen       int32  `json:"seen_by_upstream"`
 	CloseSeen    bool   `json:"connection_close_seen,omitempty"`
+	// client-stall phase: bytes of the response that had reached the client when it was seen stalled, and whether the
+	// proxy had provably more to write at that moment
+	StallBytes int64 `json:"stall_bytes,omitempty"`
+	Stalled    bool  `json:"stalled,omitempty"`
 	plan         *plan
 }
 
@@ -130,7 +134,28 @@ func dialH1(r *run, addr string) (xconn, error) {
 	if err != nil {
 		return nil, err
 	}
+	if r.cs.Phase == "client-stall" {
+		if tc, ok := c.(*net.TCPConn); ok {
+			_ = tc.SetReadBuffer(16 << 10) // a client that is slow to read: the proxy's writes soon block
+		}
+	}
 	return &h1conn{r: r, c: c, br: bufio.NewReader(c), afterSig: after}, nil
+}
+
+// stallH1 is the client-stall phase of an HTTP/1.1 client: the response has begun to arrive, the client does not read
+// on; the response is far larger than what the socket buffers between the proxy and this client hold, so the proxy is
+// left with a part of the response it cannot write. The phase is reported and the client reads on when released.
+func (x *h1conn) stallH1(p *plan, res *result) {
+	_ = x.c.SetReadDeadline(time.Now().Add(reqTimeout))
+	if b, err := x.br.Peek(1); err == nil && len(b) == 1 {
+		time.Sleep(200 * time.Millisecond) // the buffers fill
+		res.StallBytes, res.Stalled = int64(x.br.Buffered()), true
+	}
+	p.reach()
+	select {
+	case <-p.release:
+	case <-x.r.stop:
+	}
 }
 
 func (x *h1conn) reusable() bool { return !x.noReuse }
@@ -222,6 +247,9 @@ func (x *h1conn) do(p *plan, h *hooks, res *result) {
 			res.Kind, res.Detail = "send-error", "second part: "+err.Error()
 			return
 		}
+	}
+	if p.HoldAt == "client-stall" {
+		x.stallH1(p, res)
 	}
 	status, hdr, rbody, closeAfter, err := x.read()
 	if err != nil {
@@ -459,6 +487,13 @@ type spyConn struct {
 	remain   int
 	onFrame  func(typ, flags byte, stream uint32, n int)
 	afterSig bool
+	rd       int64 // bytes read from the connection
+}
+
+func (s *spyConn) Read(b []byte) (int, error) {
+	n, err := s.Conn.Read(b)
+	atomic.AddInt64(&s.rd, int64(n))
+	return n, err
 }
 
 func (s *spyConn) Write(b []byte) (int, error) {
@@ -568,6 +603,37 @@ func (x *h2conn) close() {
 	x.tr.CloseIdleConnections()
 }
 
+// stallH2 is the client-stall phase of an HTTP/2 client: the response headers are here, the application does not read the
+// body, so the client grants no further flow-control credit; the response is larger than the stream window the client
+// announced (4 MiB) and the proxy's writer is left waiting for credit. The phase is reported once the bytes received stop
+// growing at the window's size, and the client reads on when released.
+func (x *h2conn) stallH2(p *plan, res *result) {
+	const window = 4 << 20
+	var got, last int64
+	calm := 0
+	for i := 0; i < 1000 && calm < 10; i++ { // <= 5 s
+		time.Sleep(5 * time.Millisecond)
+		x.mu.Lock()
+		got = 0
+		for _, c := range x.conns {
+			got += atomic.LoadInt64(&c.rd)
+		}
+		x.mu.Unlock()
+		if got >= window && got == last {
+			calm++
+		} else {
+			calm = 0
+		}
+		last = got
+	}
+	res.StallBytes, res.Stalled = got, calm >= 10
+	p.reach()
+	select {
+	case <-p.release:
+	case <-x.r.stop:
+	}
+}
+
 type h2out struct {
 	status int
 	tok    string
@@ -628,6 +694,9 @@ func (x *h2conn) do(p *plan, h *hooks, res *result) {
 				return
 			}
 			o.status, o.tok = resp.StatusCode, resp.Header.Get(mesh.TokenHeader)
+			if p.HoldAt == "client-stall" {
+				x.stallH2(p, res)
+			}
 			o.body, o.err = io.ReadAll(resp.Body)
 			_ = resp.Body.Close()
 			done <- o
